@@ -425,13 +425,31 @@ def selection_clause(model, rep, funcs):
     ok = "isinstance(tilt, TiltSeriesModel)" in src and "single_axis(tilt)" in src and "no_wedge()" in src
     rep.ob("SLOT", f.anchor, "tilt=None -> no wedge, tilt=model -> that model, tilt=(min, max) -> single-axis model", ok, "", node=f.node, fn=f,
            clause="5 selection", stmt="def __init__ dispatch")
-    g = funcs.get("acryo/alignment/_base.py::TomographyInput._get_missing_wedge_mask")
-    if g is not None:
-        c = [x for x in calls_in(g) if isinstance(x.func, ast.Attribute) and x.func.attr == "create_mask"]
-        ok = bool(c) and norm_src(c[0].func.value) == "self._tilt_model" and "Rotation.from_quat(quat)" in norm_src(c[0]) and "self.input_shape" in norm_src(c[0])
-        rep.instance("SLOT.models", g.loc())
-        rep.ob("SLOT", g.anchor, "the model's wedge mask is create_mask(Rotation.from_quat(quat), input_shape) of the selected tilt model", ok,
-               norm_src(c[0])[:100] if c else "", node=g.node, fn=g, clause="5 selection", stmt="def _get_missing_wedge_mask")
+    wedge_call_obligation(model, rep, "5 selection")
+
+
+def wedge_call_obligation(model, rep, clause):
+    """create_mask takes the molecule's own rotation (M->W) and inverts it itself: the caller passes Rotation.from_quat(quat), not its inverse."""
+    from ..match import Matcher
+    try:
+        g = model.func("acryo/alignment/_base.py::TomographyInput._get_missing_wedge_mask")
+    except Exception as e:
+        rep.error(f"anchor vanished: {e}")
+        return
+    c = [x for x in calls_in(g) if isinstance(x.func, ast.Attribute) and x.func.attr == "create_mask"]
+    M = Matcher(g)
+    ok = len(c) == 1 and (M.has("self._tilt_model.create_mask(Rotation.from_quat(quat), self.input_shape)") or
+                          M.has("self._tilt_model.create_mask(Rotation.from_quat(quat), shape=self.input_shape)") or
+                          M.has("self._tilt_model.create_mask(rotator=Rotation.from_quat(quat), shape=self.input_shape)"))
+    det = ""
+    if c and not ok:
+        ex = norm_src(M.expr(c[0]))
+        det = ex[:120]
+        if ".inv()" in ex:
+            det += ": the orientation is inverted before create_mask, which inverts it again - the wedge is rotated the wrong way for every rotated molecule"
+    rep.instance("SLOT.models", g.loc())
+    rep.ob("SLOT", g.anchor, "the model's wedge mask is create_mask(Rotation.from_quat(quat), input_shape) of the selected tilt model (un-inverted molecule rotation)", ok,
+           det, node=g.node, fn=g, clause=clause, stmt="def _get_missing_wedge_mask")
 
 
 def check(model, rep, tier):
@@ -443,3 +461,6 @@ def check(model, rep, tier):
     normals_clause(model, rep, funcs)
     models_clause(model, rep, funcs)
     selection_clause(model, rep, funcs)
+    from .generic import axis_convention_obligations
+    axis_convention_obligations(model, rep, ["acryo/backend/_missing_wedge.py", "acryo/tilt/_utils.py", "acryo/_utils.py", "acryo/tilt/_single.py", "acryo/tilt/_base.py"],
+                                "1 grid", floor=3)
